@@ -90,9 +90,12 @@ fn body(n_specs: usize, max_edges: usize, cost: bool) -> impl Fn(&Ch) -> Run + S
     let two_roots = roots.len() == 2;
     let mut outcomes = vec![];
     for (skip_dynamic, is_dynamic, unstable) in [
+      // skip_dynamic_deps is not varied: prune_types() cannot know that the
+      // build skipped dynamic imports, and the property quantifies over
+      // inputs, not over that option
       (false, false, true),
-      (true, false, true),
       (false, true, false),
+      (false, false, false),
     ] {
       let build = |kind: GraphKind| -> Result<ModuleGraph, DriveError> {
         let sched = Sched::new(SchedMode::Immediate);
@@ -135,8 +138,25 @@ fn body(n_specs: usize, max_edges: usize, cost: bool) -> impl Fn(&Ch) -> Run + S
           .find(|k| a[**k] != c[**k])
           .unwrap();
         let detail = diff_detail(&a[*comp], &c[*comp]);
+        // cause: a specifier that code only source-phase-imports (cached as an
+        // asset => External) but a type-only edge loaded as a full module
+        let source_phase_asset = *comp == "slots"
+          && a["slots"].as_object().unwrap().iter().all(|(k, va)| {
+            let vc = &c["slots"][k];
+            va == vc
+              || (vc == "external"
+                && world.edges.iter().any(|e| {
+                  e.form == Form::ImportSource
+                    && matches!(e.dst, Target::Spec(d) if world.spec(world.final_target(d)) == *k || world.spec(d) == *k)
+                }))
+          })
+          && a["slots"].as_object().unwrap().len() == c["slots"].as_object().unwrap().len();
         run.violate(
-          format!("pruned-differs-from-code-only@{comp}:{}", detail.0),
+          if source_phase_asset {
+            "pruned-keeps-module-where-code-only-has-source-phase-asset".to_string()
+          } else {
+            format!("pruned-differs-from-code-only@{comp}:{}", detail.0)
+          },
           format!("prune_types() result differs from a CodeOnly build in `{comp}`: {}", detail.1),
           case(),
         );
@@ -224,20 +244,20 @@ pub fn prop(tier: Tier) -> Prop {
       Part {
         name: "worlds",
         body: Box::new(body(3, 3, true)),
-        modes: vec![Mode::Deviations(1), Mode::Deviations(2), Mode::Deviations(3)],
+        modes: vec![Mode::Deviations(3), Mode::Deviations(4), Mode::Deviations(5)],
         what: "3-specifier worlds, <= 3 import edges, deviation-bounded",
       },
       Part {
         name: "worlds4",
         body: Box::new(body(4, 3, true)),
-        modes: vec![Mode::Deviations(2), Mode::Deviations(3)],
+        modes: vec![Mode::Deviations(3), Mode::Deviations(4)],
         what: "4-specifier worlds, <= 3 import edges, deviation-bounded",
       },
     ],
   };
   Prop {
     id: "C17",
-    rule: "state = (world, root set): entry kinds (ts/js/d.ts/tsx/jsx/json/missing/redirect/txt/content-type-typed/external/loader-error/wasm/unparsable) x import attribute per target x import edges (form from the kind's form alphabet, target incl. node:/npm:/data:/bare/http-downgrade/file-literal) x local|remote x x-typescript-types header; per state 3 option sets (skip_dynamic_deps, is_dynamic root, unstable text/bytes). All-kind graph + prune_types() is compared with a CodeOnly build. Non-trivial = world with at least one edge of a non-default form.".into(),
+    rule: "state = (world, root set): entry kinds (ts/js/d.ts/tsx/jsx/json/missing/redirect/txt/content-type-typed/external/loader-error/wasm/unparsable) x import attribute per target x import edges (form from the kind's form alphabet, target incl. node:/npm:/data:/bare/http-downgrade/file-literal) x local|remote x x-typescript-types header; per state 3 option sets (is_dynamic root, unstable text/bytes on/off; skip_dynamic_deps stays off: pruning cannot know about it). All-kind graph + prune_types() is compared with a CodeOnly build. Non-trivial = world with at least one edge of a non-default form.".into(),
     assumptions: vec![
       "error entries are compared by kind and specifier; which importer an error names as referrer is not compared (the statement says 'same errors')".into(),
       "deviation-bounded: all worlds differing from the base world (all TypeScript, no edges) in at most d generator decisions".into(),
